@@ -701,3 +701,445 @@ theorem headersFirst_of {hs bs : List BSx} {x : BSx} (hh : ∀ e ∈ hs, SHeader
     have hy : headerB y = true := headerB_complete (hh y (by simp))
     simp only [List.cons_append, List.dropWhile_cons, hy, if_true] at he
     exact ih (fun z hz => hh z (by simp [hz])) e he
+
+/-! ## `autoload_pulses=True`, header statements anywhere the builder accepts them
+
+`auto_to_plain` (`Lemmas/RoundTripAutoload.lean`) is stated for children `hs ++ bs`, header statements first.  A builder
+program may have a `let` / `register` / `map` after a statement or a macro.  With autoload on a `usepulses` there is
+refused ("pulses-after-first-gate-or-macro"), so a successful run still splits into header statements `hs` followed by
+children none of which is a `usepulses` — and that is all `auto_to_plain` uses. -/
+
+open Jaqal.Autoload
+
+/-- a child that is built to a value is none of the statement / macro forms -/
+theorem anyStep_val_cmd {cfg : Config} {mode : KeyMode} {recA : Ctx → BSx → St → M (Obj × St)} {recV : BSx → M Val}
+    {ctx : Ctx} {l : List BSx} {st s1 : St} {v : Val}
+    (h : anyStep cfg mode recA recV ctx l st = .ok (.val v, s1)) :
+    ∃ cmd args, l = .str cmd :: args ∧ cmd ≠ "gate" ∧ cmd ≠ "sequential_block" ∧ cmd ≠ "parallel_block" ∧
+      cmd ≠ "subcircuit_block" ∧ cmd ≠ "loop" ∧ cmd ≠ "macro" := by
+  unfold anyStep at h
+  match l, h with
+  | [], h => simp [throw_eq] at h
+  | .str cmd :: args, h =>
+    by_cases h1 : cmd = "gate"
+    · exfalso
+      simp only [h1, if_true] at h
+      obtain ⟨a, _, h2⟩ := bind_ok h
+      cases h2
+    simp only [h1, if_false] at h
+    by_cases h2 : cmd = "sequential_block" ∨ cmd = "block"
+    · exfalso
+      simp only [h2, if_true] at h
+      obtain ⟨a, _, h2⟩ := bind_ok h
+      obtain ⟨b, _, h3⟩ := bind_ok h2
+      cases h3
+    simp only [h2, if_false] at h
+    by_cases h3 : cmd = "parallel_block"
+    · exfalso
+      simp only [h3, if_true] at h
+      obtain ⟨a, _, h2⟩ := bind_ok h
+      obtain ⟨b, _, h3⟩ := bind_ok h2
+      cases h3
+    simp only [h3, if_false] at h
+    by_cases h4 : cmd = "unscheduled_block"
+    · exfalso
+      simp only [h4, if_true] at h
+      obtain ⟨a, _, h2⟩ := bind_ok h
+      obtain ⟨b, _, h3⟩ := bind_ok h2
+      cases h3
+    simp only [h4, if_false] at h
+    by_cases h5 : cmd = "subcircuit_block"
+    · exfalso
+      simp only [h5, if_true] at h
+      split at h
+      · simp [throw_eq] at h
+      · obtain ⟨a, _, h2⟩ := bind_ok h
+        split at h2
+        · simp [throw_eq] at h2
+        · obtain ⟨b, _, h3⟩ := bind_ok h2
+          obtain ⟨c, _, h4⟩ := bind_ok h3
+          obtain ⟨d, _, h5⟩ := bind_ok h4
+          cases h5
+    simp only [h5, if_false] at h
+    by_cases h6 : cmd = "loop"
+    · exfalso
+      simp only [h6, if_true] at h
+      split at h
+      · obtain ⟨a, _, h2⟩ := bind_ok h
+        obtain ⟨b, _, h3⟩ := bind_ok h2
+        split at h3
+        · obtain ⟨c, _, h4⟩ := bind_ok h3
+          cases h4
+        · obtain ⟨c, _, h4⟩ := bind_ok h3
+          cases h4
+        · simp [throw_eq] at h3
+      · simp [throw_eq] at h
+    simp only [h6, if_false] at h
+    by_cases h7 : cmd = "case"
+    · exfalso
+      simp only [h7, if_true] at h
+      split at h
+      · obtain ⟨a, _, h2⟩ := bind_ok h
+        obtain ⟨b, _, h3⟩ := bind_ok h2
+        cases h3
+      · simp [throw_eq] at h
+    simp only [h7, if_false] at h
+    by_cases h8 : cmd = "branch"
+    · exfalso
+      simp only [h8, if_true] at h
+      obtain ⟨a, _, h2⟩ := bind_ok h
+      simp [throw_eq] at h2
+    simp only [h8, if_false] at h
+    by_cases h9 : cmd = "macro"
+    · exfalso
+      simp only [h9, if_true] at h
+      split at h
+      · simp [throw_eq] at h
+      · split at h
+        · obtain ⟨a, _, h2⟩ := bind_ok h
+          split at h2
+          · simp [throw_eq, bind, Except.bind] at h2
+          · obtain ⟨b, _, h3⟩ := bind_ok h2
+            split at h3
+            · simp [throw_eq] at h3
+            · obtain ⟨c, _, h4⟩ := bind_ok h3
+              split at h4
+              · cases h4
+              · simp [throw_eq] at h4
+        · simp [throw_eq] at h
+    exact ⟨cmd, args, rfl, h1, fun hc => h2 (Or.inl hc), h3, h5, h6, h9⟩
+  | .int _ :: _, h | .flt _ :: _, h | .none :: _, h | .list _ :: _, h | .val _ :: _, h => simp [throw_eq] at h
+
+/-- a statement or a macro has been recorded -/
+def busy (acc : Acc) : Prop := acc.stmts ≠ [] ∨ acc.macros ≠ []
+
+/-- `stepTail` only appends -/
+theorem stepTail_busy {cfg : Config} {mode : KeyMode} {inject : Option (List (String × GateDef))}
+    {acc a1 : Acc} {o : Obj} {st : St} (h : stepTail cfg mode inject acc o st = .ok a1) (hb : busy acc) : busy a1 := by
+  have key : a1.stmts = acc.stmts ∧ a1.macros = acc.macros ∨ (∃ s, a1.stmts = acc.stmts ++ [s] ∧ a1.macros = acc.macros) ∨
+      (∃ m, a1.macros = acc.macros ++ [m] ∧ a1.stmts = acc.stmts) := by
+    cases o with
+    | usepulses n =>
+      rcases stepTail_usepulses_ok h with ⟨_, rfl⟩ | ⟨_, _, gs, _, rfl⟩
+      · exact Or.inl ⟨rfl, rfl⟩
+      · exact Or.inl ⟨rfl, rfl⟩
+    | val v =>
+      cases v <;> simp only [stepTail, throw_eq] at h <;> first
+        | cases h
+        | (obtain ⟨c, _, h2⟩ := bind_ok h
+           cases h2
+           exact Or.inl ⟨rfl, rfl⟩)
+    | «macro» m =>
+      simp only [stepTail] at h
+      obtain ⟨m', _, h2⟩ := bind_ok h
+      split at h2
+      · simp [throw_eq, bind, Except.bind] at h2
+      · simp only [bind, Except.bind, pure, Except.pure] at h2
+        cases h2
+        exact Or.inr (Or.inr ⟨m', rfl, rfl⟩)
+    | stmt s =>
+      simp only [stepTail, pure, Except.pure] at h
+      cases h
+      exact Or.inr (Or.inl ⟨s, rfl, rfl⟩)
+    | case => simp [stepTail, throw_eq] at h
+  unfold busy at hb ⊢
+  rcases key with ⟨h1, h2⟩ | ⟨s, h1, h2⟩ | ⟨m, h1, h2⟩
+  · rw [h1, h2]; exact hb
+  · rw [h1, h2]; rcases hb with hb | hb
+    · exact Or.inl (by simp)
+    · exact Or.inr hb
+  · rw [h1, h2]; rcases hb with hb | hb
+    · exact Or.inl hb
+    · exact Or.inr (by simp)
+
+theorem gtop_cmd {e : BSx} (h : GTop e) : ∃ cmd args, e = .list (.str cmd :: args) ∧
+    (cmd = "gate" ∨ cmd = "sequential_block" ∨ cmd = "parallel_block" ∨ cmd = "subcircuit_block" ∨ cmd = "loop" ∨
+      cmd = "macro" ∨ cmd = "branch") := by
+  cases h with
+  | stmt hs =>
+    cases hs with
+    | gate _ => exact ⟨_, _, rfl, Or.inl rfl⟩
+    | parB _ => exact ⟨_, _, rfl, Or.inr (Or.inr (Or.inl rfl))⟩
+    | loopSeq _ _ => exact ⟨_, _, rfl, Or.inr (Or.inr (Or.inr (Or.inr (Or.inl rfl))))⟩
+    | loopPar _ _ => exact ⟨_, _, rfl, Or.inr (Or.inr (Or.inr (Or.inr (Or.inl rfl))))⟩
+    | sub _ _ => exact ⟨_, _, rfl, Or.inr (Or.inr (Or.inr (Or.inl rfl)))⟩
+  | seqB _ => exact ⟨_, _, rfl, Or.inr (Or.inl rfl)⟩
+  | macroDef _ => exact ⟨_, _, rfl, Or.inr (Or.inr (Or.inr (Or.inr (Or.inr (Or.inl rfl)))))⟩
+  | branch => exact ⟨_, _, rfl, Or.inr (Or.inr (Or.inr (Or.inr (Or.inr (Or.inr rfl)))))⟩
+
+/-- a successful step on a macro definition or a statement records it -/
+theorem step_top_busy {cfg : Config} {mode : KeyMode} {inject : Option (List (String × GateDef))} {F : Nat}
+    {acc a1 : Acc} {e : BSx} (hg : GTop e) (h : circuitStep cfg mode inject F acc e = .ok a1) : busy a1 := by
+  unfold circuitStep at h
+  obtain ⟨⟨o, st⟩, hb, ht⟩ := bind_ok h
+  obtain ⟨cmd, args, rfl, hcmd⟩ := gtop_cmd hg
+  cases o with
+  | usepulses n =>
+    have h1 := buildAny_usepulses hb
+    have h2 := gtop_notUse hg
+    simp [notUse, h1] at h2
+  | val v =>
+    exfalso
+    cases F with
+    | zero => simp [buildAny, throw_eq] at hb
+    | succ f =>
+      rw [buildAny_list] at hb
+      obtain ⟨cmd', args', hl, c1, c2, c3, c4, c5, c6⟩ := anyStep_val_cmd hb
+      cases hl
+      rcases hcmd with rfl | rfl | rfl | rfl | rfl | rfl | rfl
+      · exact c1 rfl
+      · exact c2 rfl
+      · exact c3 rfl
+      · exact c4 rfl
+      · exact c5 rfl
+      · exact c6 rfl
+      · rw [← buildAny_list] at hb
+        exact branch_fails _ _ _ _ _ _ _ hb
+  | «macro» m =>
+    simp only [stepTail] at ht
+    obtain ⟨m', _, h2⟩ := bind_ok ht
+    split at h2
+    · simp [throw_eq, bind, Except.bind] at h2
+    · simp only [bind, Except.bind, pure, Except.pure] at h2
+      cases h2
+      exact Or.inr (by simp)
+  | stmt s =>
+    simp only [stepTail, pure, Except.pure] at ht
+    cases ht
+    exact Or.inl (by simp)
+  | case => simp [stepTail, throw_eq] at ht
+
+/-- a child headed `usepulses` is built to a `usepulses` statement -/
+theorem buildAny_usepulses_obj {cfg : Config} {mode : KeyMode} {F : Nat} {ctx : Ctx} {x : BSx} {st s1 : St} {o : Obj}
+    (hc : headCmd x = some "usepulses") (h : buildAny cfg mode F ctx x st = .ok (o, s1)) : ∃ n, o = .usepulses n := by
+  cases x with
+  | list l =>
+    cases F with
+    | zero => simp [buildAny, throw_eq] at h
+    | succ f =>
+      rw [buildAny_list] at h
+      cases l with
+      | nil => simp [headCmd] at hc
+      | cons y ys =>
+        cases y <;> simp [headCmd] at hc
+        subst hc
+        simp only [anyStep, show ("usepulses" = "gate") = False from by decide, if_false,
+          show ("usepulses" = "sequential_block" ∨ "usepulses" = "block") = False from by decide,
+          show ("usepulses" = "parallel_block") = False from by decide,
+          show ("usepulses" = "unscheduled_block") = False from by decide,
+          show ("usepulses" = "subcircuit_block") = False from by decide,
+          show ("usepulses" = "loop") = False from by decide,
+          show ("usepulses" = "case") = False from by decide,
+          show ("usepulses" = "branch") = False from by decide,
+          show ("usepulses" = "macro") = False from by decide, if_true] at h
+        split at h
+        · split at h
+          · simp [throw_eq, bind, Except.bind] at h
+          · split at h
+            · cases h; exact ⟨_, rfl⟩
+            · simp [throw_eq] at h
+        · simp [throw_eq] at h
+  | _ => simp [headCmd] at hc
+
+/-- with autoload on, once a statement or a macro has been recorded no `usepulses` is accepted any more -/
+theorem busy_rest_notUse {cfg : Config} (ha : cfg.autoload = true) {inject : Option (List (String × GateDef))} {F : Nat} :
+    ∀ (cs : List BSx) (acc accF : Acc), busy acc → circuitLoop cfg .off inject F acc cs = .ok accF →
+      ∀ e ∈ cs, notUse e = true
+  | [], _, _, _, _ => fun e he => by cases he
+  | x :: cs, acc, accF, hb, hl => by
+    simp only [circuitLoop] at hl
+    obtain ⟨a1, hstep, hrest⟩ := bind_ok hl
+    unfold circuitStep at hstep
+    obtain ⟨⟨o, st⟩, hbuild, ht⟩ := bind_ok hstep
+    have hb1 : busy a1 := stepTail_busy ht hb
+    have hx : notUse x = true := by
+      cases hu : notUse x with
+      | true => rfl
+      | false =>
+        exfalso
+        have hc : headCmd x = some "usepulses" := by simpa [notUse] using hu
+        obtain ⟨n, rfl⟩ := buildAny_usepulses_obj hc hbuild
+        rcases stepTail_usepulses_ok ht with ⟨hf, _⟩ | ⟨_, hem, _⟩
+        · rw [ha] at hf; cases hf
+        · obtain ⟨h1, h2⟩ := hem (by decide)
+          rcases hb with hb | hb
+          · exact hb h1
+          · exact hb h2
+    intro e he
+    rcases List.mem_cons.1 he with rfl | he
+    · exact hx
+    · exact busy_rest_notUse ha cs a1 accF hb1 hrest e he
+
+/-- `auto_to_plain` needs of the children after the header statements only that none is a `usepulses` -/
+theorem auto_to_plain_notUse {cfg : Config} (ha : cfg.autoload = true) {inject : Option (List (String × GateDef))}
+    (hnat : NatOK (inject.getD [])) {F : Nat} {hs bs : List BSx} {accF : Acc}
+    (hh : ∀ e ∈ hs, GHeader e) (hb : ∀ e ∈ bs, notUse e = true)
+    (hl : circuitLoop cfg .off inject F (acc0 inject) (hs ++ bs) = .ok accF) :
+    circuitLoop (plain cfg) .off (some accF.natives) F (acc0 (some accF.natives)) (hs ++ bs) = .ok accF ∧
+      NatOK accF.natives ∧ importAll cfg inject accF.usepulses (inject.getD []) = some accF.natives := by
+  rw [circuitLoop_append] at hl
+  obtain ⟨accH, hH, hB⟩ := bind_ok hl
+  have hinvH : HInv accH :=
+    circuitLoop_header hs (acc0 inject) accH (hinv_acc0 hnat) (fun c hc => gheader_headerChild (hh c hc)) hH
+  obtain ⟨hB', hu, hn⟩ := loop_congr (cfg' := plain cfg) (inject' := some accF.natives) (plain_anon ha) bs accH accF hb hB
+  obtain ⟨hH', ms, hms, himp⟩ := header_fwd (inj' := some accF.natives) ha accF.natives hs (acc0 inject) accH hh hH
+  have htw : twin accH accF.natives = accH := by rw [hn]; exact twin_self hinvH
+  rw [htw] at hH'
+  refine ⟨?_, by rw [hn]; exact hinvH.nat, ?_⟩
+  · rw [circuitLoop_append]
+    have : twin (acc0 inject) accF.natives = acc0 (some accF.natives) := rfl
+    rw [← this, hH']
+    exact hB'
+  · rw [hu, hn, hms]
+    exact himp
+
+theorem dropWhile_head_false {α} {p : α → Bool} : ∀ {l : List α} {x : α} {rest : List α},
+    l.dropWhile p = x :: rest → p x = false
+  | [], _, _, h => by simp at h
+  | y :: ys, x, rest, h => by
+    simp only [List.dropWhile_cons] at h
+    split at h
+    · exact dropWhile_head_false h
+    · rename_i hy
+      cases h
+      simpa using hy
+
+theorem gtop_not_headerChild {e : BSx} (h : GTop e) : headerChild e = false := by
+  obtain ⟨cmd, args, rfl, hcmd⟩ := gtop_cmd h
+  rcases hcmd with rfl | rfl | rfl | rfl | rfl | rfl | rfl <;> rfl
+
+/-- **`auto_to_plain` for children in any order.**  If the autoload builder accepts the children `cs` of a program — header
+statements, macro definitions and statements in ANY order — then the header statements before the first macro or
+statement are followed by no `usepulses`, and the plain builder started from the final native table accepts the same
+children and accumulates the same result. -/
+theorem auto_to_plain_any {cfg : Config} (ha : cfg.autoload = true) {inject : Option (List (String × GateDef))}
+    (hnat : NatOK (inject.getD [])) {F : Nat} {cs : List BSx} {accF : Acc}
+    (hcs : ∀ e ∈ cs, RoundTrip.GChild e)
+    (hl : circuitLoop cfg .off inject F (acc0 inject) cs = .ok accF) :
+    circuitLoop (plain cfg) .off (some accF.natives) F (acc0 (some accF.natives)) cs = .ok accF ∧
+      NatOK accF.natives ∧ importAll cfg inject accF.usepulses (inject.getD []) = some accF.natives := by
+  have hsplit : cs = cs.takeWhile headerChild ++ cs.dropWhile headerChild := (List.takeWhile_append_dropWhile).symm
+  have hh : ∀ e ∈ cs.takeWhile headerChild, GHeader e := by
+    intro e he
+    have h1 : headerChild e = true := mem_takeWhile_p he
+    have hm : e ∈ cs := by rw [hsplit]; exact List.mem_append_left _ he
+    rcases hcs e hm with hg | hg
+    · exact hg
+    · rw [gtop_not_headerChild hg] at h1; cases h1
+  have hb : ∀ e ∈ cs.dropWhile headerChild, notUse e = true := by
+    cases hd : cs.dropWhile headerChild with
+    | nil => intro e he; cases he
+    | cons x rest =>
+      have hxm : x ∈ cs := mem_of_dropWhile (p := headerChild) (by rw [hd]; simp)
+      have hxh : headerChild x = false := dropWhile_head_false hd
+      have hxt : GTop x := by
+        rcases hcs x hxm with hg | hg
+        · rw [gheader_headerChild hg] at hxh; cases hxh
+        · exact hg
+      rw [hsplit, hd, circuitLoop_append] at hl
+      obtain ⟨accH, _, hB⟩ := bind_ok hl
+      simp only [circuitLoop] at hB
+      obtain ⟨a1, hstep, hrest⟩ := bind_ok hB
+      have hbusy := step_top_busy hxt hstep
+      intro e he
+      rcases List.mem_cons.1 he with rfl | he
+      · exact gtop_notUse hxt
+      · exact busy_rest_notUse ha rest a1 accF hbusy hrest e he
+  rw [hsplit] at hl ⊢
+  exact auto_to_plain_notUse ha hnat hh hb hl
+
+/-! ### the `buildNoMemo_…_any` theorems for children in any order -/
+
+/-- `built_plain` for children in any order -/
+theorem built_plain_sx (cfg : Config) {cs : List BSx} {c : Circuit} (hcs : ∀ e ∈ cs, RoundTrip.GChild e)
+    (h : buildNoMemo cfg (.list (.str "circuit" :: cs)) = .ok c) :
+    ∃ (cfg' : Config) (inj' : Option (List (String × GateDef))) (accF : Acc), cfg'.autoload = false ∧
+      NatOK (inj'.getD []) ∧
+      circuitLoop cfg' .off inj' ((BSx.list (.str "circuit" :: cs)).depth + 1) (acc0 inj') cs = .ok accF ∧
+      accF.toCircuit = c := by
+  unfold buildNoMemo buildWith at h
+  obtain ⟨inject, hinj, h1⟩ := bind_ok h
+  simp only [buildCore] at h1
+  obtain ⟨accF, hloop, h2⟩ := bind_ok h1
+  simp only [pure, Except.pure, Except.ok.injEq] at h2
+  have hnat := inject_natOK hinj
+  cases ha : cfg.autoload with
+  | false => exact ⟨cfg, inject, accF, ha, hnat, hloop, h2⟩
+  | true =>
+    obtain ⟨hP, hN, _⟩ := auto_to_plain_any ha hnat hcs hloop
+    exact ⟨plain cfg, some accF.natives, accF, rfl, hN, hP, h2⟩
+
+theorem buildNoMemo_facts_sx (cfg : Config) {cs : List BSx} {c : Circuit}
+    (hcs : ∀ e ∈ cs, RoundTrip.GChild e ∧ noBr e = true)
+    (h : buildNoMemo cfg (.list (.str "circuit" :: cs)) = .ok c) : BuiltFacts c := by
+  obtain ⟨cfg', inj', accF, ha', hnat, hloop, rfl⟩ := built_plain_sx cfg (fun e he => (hcs e he).1) h
+  exact builtFacts_of_topInv (loop_inv ha' _ (acc0 inj') accF (topInv_acc0_nat cfg' hnat) hcs hloop)
+
+theorem buildNoMemo_safe_sx (cfg : Config) {Pm P : String → Prop} {R : Dec → Prop} {cs : List BSx} {c : Circuit}
+    (hcs : ∀ e ∈ cs, SChild Pm P R e ∧ noBr e = true)
+    (h : buildNoMemo cfg (.list (.str "circuit" :: cs)) = .ok c) : SafeCircuit Pm P R c := by
+  obtain ⟨cfg', inj', accF, ha', hnat, hloop, rfl⟩ := built_plain_sx cfg (fun e he => (hcs e he).1.toG) h
+  have h0 : SafeAcc Pm P R (acc0 inj') := by
+    refine ⟨?_, ?_, ?_, ?_, ?_, ?_⟩
+    · intro n v hg; simp [Ctx.get, acc0] at hg
+    all_goals (intro v hv; simp [acc0] at hv)
+  have hF := safe_loop ha' _ (acc0 inj') accF (topInv_acc0_nat cfg' hnat) h0 hcs hloop
+  refine ⟨hF.consts, hF.regs, hF.macros, ?_, ?_⟩
+  · intro s hs
+    exact hF.stmts s (by simpa [Acc.toCircuit, Stmt.stmts] using hs)
+  · intro u hu
+    simp only [Acc.toCircuit, List.mem_map] at hu
+    obtain ⟨n, hn, rfl⟩ := hu
+    exact hF.mods n hn
+
+theorem canonical_of_built_sx (cfg : Config) {cs : List BSx} {c : Circuit}
+    (hcs : ∀ e ∈ cs, RoundTrip.GChild e ∧ noBr e = true)
+    (h : buildNoMemo cfg (.list (.str "circuit" :: cs)) = .ok c)
+    (h1 : (c.registers.filter isFundamental).length ≤ 1) : Canonical (canon cs) := by
+  obtain ⟨cfg', inj', accF, ha', hnat, hloop, rfl⟩ := built_plain_sx cfg (fun e he => (hcs e he).1) h
+  have hR := regInv_loop ha' cs [] (acc0 inj') accF (topInv_acc0_nat cfg' hnat) (regInv_acc0 inj') hcs hloop
+  simp only [List.nil_append] at hR
+  exact canon_canonical (ranks2_sorted_of hR h1)
+
+/-- **Layer C for every configuration and children in any order** -/
+theorem buildNoMemo_rebuild_sx (cfg : Config) {cs : List BSx} {c : Circuit}
+    (hcs : ∀ e ∈ cs, RoundTrip.GChild e ∧ noBr e = true)
+    (h : buildNoMemo cfg (.list (.str "circuit" :: cs)) = .ok c)
+    (h1 : (c.registers.filter isFundamental).length ≤ 1) : buildNoMemo cfg (BSx.ofSx (unbuild c)) = .ok c := by
+  have hcs' : ∀ e ∈ canon cs, RoundTrip.GChild e ∧ noBr e = true := fun e hm => hcs e ((canon_perm _).mem_iff.1 hm)
+  cases ha : cfg.autoload with
+  | false =>
+    exact (buildNoMemo_rebuild ha hcs' (canonical_of_built ha hcs h h1) (buildNoMemo_reorder ha hcs h)).1
+  | true =>
+    have hcan := canonical_of_built_sx cfg hcs h h1
+    unfold buildNoMemo buildWith at h ⊢
+    obtain ⟨inject, hinj, h2⟩ := bind_ok h
+    simp only [buildCore] at h2
+    obtain ⟨accF, hloop, h3⟩ := bind_ok h2
+    simp only [pure, Except.pure, Except.ok.injEq] at h3
+    subst h3
+    have hnat := inject_natOK hinj
+    obtain ⟨hP, hN, hI⟩ := auto_to_plain_any ha hnat (fun e he => (hcs e he).1) hloop
+    have hi0 := topInv_acc0_nat (plain cfg) (inject := some accF.natives) hN
+    have hp := plain_autoload cfg
+    obtain ⟨r', hloop', he, _⟩ :=
+      reorder_loop hp (acc0 (some accF.natives)) hi0 (rinv_acc0 _) cs accF hcs hP
+    have hr0 : RankInv (acc0 (some accF.natives)) 0 :=
+      ⟨fun _ => rfl, fun _ => rfl, fun _ => rfl, fun _ => rfl, fun _ => rfl⟩
+    obtain ⟨hiF, es, hW, hreb⟩ := loop_rebuild hp (canon cs) (acc0 (some accF.natives)) r' 0 hi0 hr0 hcs'
+      (List.pairwise_cons.2 ⟨fun _ _ => Nat.zero_le _, hcan⟩) hloop'
+    have hW0 : W (acc0 (some accF.natives)) = [] := by simp [W, acc0]
+    rw [hW0, List.nil_append] at hW
+    subst hW
+    have hplain := hreb ((BSx.list (BSx.str "circuit" :: BSx.ofSxList (W r'))).depth + 1)
+      (by simp only [BSx.depth, BSx.depthList]; omega)
+    rw [ofSxList_W] at hplain
+    have hI' : importAll cfg inject r'.usepulses (inject.getD []) = some accF.natives := by
+      rw [← he.usepulses]; exact hI
+    have hauto := plain_to_auto ha hnat (notUse_restW r') hI' hplain
+    rw [← ofSxList_W] at hauto
+    rw [hinj, he.toCircuit, unbuild_toCircuit]
+    simp only [bind, Except.bind, BSx.ofSx, BSx.ofSxList, buildCore]
+    simp only [acc0] at hauto
+    rw [hauto]
+    rfl
